@@ -397,6 +397,26 @@ func (fr *Frame) lookupName(name string, e *Env) (TV, bool) {
 		}
 	}
 	// special names
+	if name == "$key" {
+		hb := e.at
+		if e.loopHead != nil {
+			hb = e.loopHead
+		}
+		if hb != nil {
+			for _, in := range hb.Instrs {
+				if nx, ok := in.(*ssa.Next); ok {
+					if rg, ok := nx.Iter.(*ssa.Range); ok {
+						if mt, ok := rg.X.Type().Underlying().(*types.Map); ok {
+							if tup := fr.tuples[nx]; len(tup) >= 2 {
+								return TV{T: tup[1], Ty: mt.Key()}, true
+							}
+						}
+					}
+				}
+			}
+		}
+		return TV{}, false
+	}
 	if name == "$i" || name == "$visited" {
 		hb := e.at
 		if e.loopHead != nil {
